@@ -154,15 +154,15 @@ pub mod http {
     impl IntoHV for crate::stub::HDate { open spec fn hv(&self) -> HV { HV::Date(self.t@) } }
 
     /// `unsafe_fmt_ascii_val!(max_len, fmt, args..)`: the value's meaning is the format literal plus its integer
-    /// arguments; the buffer capacity `max_len` must cover the literal plus 20 decimal digits per argument
-    /// (otherwise the real `write!(buf, ..).expect(..)` panics) - so the capacity arguments are obligations.
+    /// arguments.  `max_len` is only the initial capacity of a `BytesMut`, which grows on demand (bytes 1.x:
+    /// `fmt::Write for BytesMut` fails only when `usize::MAX - len` is exceeded), so a small value costs a reallocation
+    /// and nothing else: no obligation is attached to it.  (An earlier version of this model required the capacity to
+    /// cover the rendered text; a mutation run showed that to be a false assumption - capacity 19 renders 2^64-1 fine.)
     #[verifier::external_body]
     pub fn fmt_val1(max_len: usize, f: &'static str, a: u64) -> (r: HeaderValue)
-        requires max_len >= f@.len() - 2 + 20,
         ensures r.v@ == HV::Fmt(f@, seq![a]) { unimplemented!() }
     #[verifier::external_body]
     pub fn fmt_val3(max_len: usize, f: &'static str, a: u64, b: u64, c: u64) -> (r: HeaderValue)
-        requires max_len >= f@.len() - 6 + 60,
         ensures r.v@ == HV::Fmt(f@, seq![a, b, c]) { unimplemented!() }
 
     pub struct RespView { pub status: int, pub hdrs: Seq<(HeaderName, HV)> }
